@@ -41,6 +41,10 @@ fn run(r: &mut Run) -> Result<(), MachineryError> {
     let t = r.tier;
     text_space(r, "C08/texts", &[L, SP, NL, HY, W], t.pick(5, 8), &gamma(), M_C08, WidthMode::Display, 4)?;
     pmachine::p_space(r, "C08/paragraph-machine", t.pick(3, 5), true, false)?;
+    // user-supplied wrap algorithms (one word per line; a naive greedy one that can emit an empty
+    // first line): the indents do not depend on the algorithm
+    let gc = Gamma { seps: seps(), algs: vec![Alg::CustomOnePerLine, Alg::CustomNaiveGreedy], spls: vec![Spl::Hyphen], bws: vec![true, false], indents: vec![("", ""), (">", ""), ("", "> "), ("* ", "  "), ("\u{4f60}", ">")], crlf: vec![false] };
+    text_space(r, "C08/custom-algorithms", &[L, LLL, SP, NL, HY, W], t.pick(4, 6), &gc, M_C08, WidthMode::Display, 0)?;
 
     // differential: what follows the indent depends only on the indents' display widths and emptiness
     let alpha = [L, SP, NL, HY, W, OP];
